@@ -2228,15 +2228,25 @@ theorem parseTokens_dropEmptyText (X : List Token) (hw : WFo X) (hy : parseToken
   | ok b =>
     obtain ⟨ns', r'⟩ := b
     rw [hY] at hsim
-    obtain ⟨ns, r2, hx, hφ, _, _, _⟩ := hsim
+    obtain ⟨ns, r2, hx, hφ, _, hr', hhead, _⟩ := hsim
     rw [hx]
     simp only [ok_bind]
     have hdup : hasDup (blockNamesL ns) = hasDup (blockNamesL ns') := by
       rw [← hφ, blockNamesL_strip]
-    rw [hdup]
-    by_cases hdd : hasDup (blockNamesL ns') = true
-    · simp only [hdd, if_true]; rfl
-    · simp only [hdd]; exact ⟨ns, rfl, hφ⟩
+    -- the unread rest: the first token is kept by `dropEmptyText` (it is EOF or a block start), so both sides
+    -- see the same stray end tag (or none)
+    have hstray : strayEnd r2 = strayEnd r' := by
+      subst hr'
+      cases r2 with
+      | nil => rfl
+      | cons t r => rw [D_cons_keep (HeadOK.keep hhead)]; rfl
+    rw [hdup, hstray]
+    by_cases hse : strayEnd r' = true
+    · simp only [hse, if_true]; rfl
+    · simp only [hse, Bool.false_eq_true, if_false]
+      by_cases hdd : hasDup (blockNamesL ns') = true
+      · simp only [hdd, if_true]; rfl
+      · simp only [hdd]; exact ⟨ns, rfl, hφ⟩
 
 
 theorem wfo_plain_tokens (t : Tag) (rest : List Token) (hr : WFo rest) :
